@@ -239,6 +239,8 @@ Definition dl_idle (s : st) : bool := match dl s with DIdle => true | _ => false
 Definition up_idle (s : st) : bool := match up s with UIdle => true | _ => false end.
 Definition sub_quiet (s : st) : bool :=
   match pc s with SIdle | SDone | SFailed => true | _ => false end.
+Definition sub_finished (s : st) : bool :=
+  match pc s with SDone | SFailed => true | _ => false end.
 Definition is_server (c : cfg) : bool := match c_var c with VServer => true | VClient => false end.
 
 (* writePublicationUpdatePosition *)
@@ -429,9 +431,11 @@ Definition step (c : cfg) (s : st) (l : label) : option st :=
               end
           end
       | _ =>
-          if closed s then None else
+          (* user-initiated unsubscribe: modelled only once the subscribe thread has
+             finished (a client-side subscribe in flight blocks it on the subscribingCh gate) *)
+          if closed s || negb (sub_finished s) then None else
           match ch s with
-          | Reserved => None                       (* waits on the subscribingCh gate *)
+          | Reserved => None
           | Sub _ _ => Some (set_up (set_ch s NoCh (g_pos s)) (UHub k))
           | NoCh => Some (set_up s (UOut k))
           end
